@@ -65,7 +65,7 @@ pub fn selftest() -> i32 {
         let Ok(committed) = std::fs::read_to_string(&gen) else { continue };
         let cfg: serde_json::Value = serde_json::from_str(&std::fs::read_to_string(format!("{}/{}/beff.json", repo(), p.origin)).unwrap()).unwrap();
         let names = |k: &str| -> Vec<String> { cfg.get(k).and_then(|v| v.as_array()).map(|a| a.iter().filter_map(|x| x["name"].as_str().map(|s| s.to_string())).collect()).unwrap_or_default() };
-        let fr = fresh_process(&p.files, &p.entry, &p.settings, &Variant { hash_seed: 7, preregister: vec![], repeat: false, diag_first: false, root: None, earlier: vec![] });
+        let fr = fresh_process(&p.files, &p.entry, &p.settings, &Variant { hash_seed: 7, preregister: vec![], repeat: false, diag_first: false, root: None, earlier: vec![], verbose: false });
         checked += 1;
         if let Some(code) = fr.first.code {
             let full = finalize(&code, &p.module, &names("stringFormats"), &names("numberFormats"));
@@ -102,7 +102,7 @@ pub fn compile_cmd(args: &[String]) -> i32 {
             }
         }
     };
-    let fr = fresh_process(&p.files, &p.entry, &p.settings, &Variant { hash_seed: 7, preregister: vec![], repeat: false, diag_first: false, root: None, earlier: vec![] });
+    let fr = fresh_process(&p.files, &p.entry, &p.settings, &Variant { hash_seed: 7, preregister: vec![], repeat: false, diag_first: false, root: None, earlier: vec![], verbose: false });
     match fr.first.code {
         Some(code) => {
             let full = finalize(&code, &p.module, &p.settings.string_formats, &p.settings.number_formats);
@@ -250,7 +250,7 @@ pub fn prepare_js_chunk(outdir: &str, lo: usize, hi: usize) -> i32 {
     let mods = format!("{}/mods", outdir);
     let mut index = vec![];
     for p in &corpus[lo..hi.min(corpus.len())] {
-        let fr = fresh_process(&p.files, &p.entry, &p.settings, &Variant { hash_seed: 7, preregister: vec![], repeat: false, diag_first: false, root: None, earlier: vec![] });
+        let fr = fresh_process(&p.files, &p.entry, &p.settings, &Variant { hash_seed: 7, preregister: vec![], repeat: false, diag_first: false, root: None, earlier: vec![], verbose: false });
         if let Some(code) = fr.first.code {
             let full = finalize(&code, "esm", &p.settings.string_formats, &p.settings.number_formats);
             let file = format!("{}/{}.mjs", mods, p.id);
